@@ -639,3 +639,73 @@ package exec
 //@   modifies unknown
 //@   loop 8 invariant lastTaskOut == out && lastDoTask == task && taskDoCalls == old(taskDoCalls) + 1 && (out.nreads == 0 || out.lastErr == nil)
 //@   loop 11 invariant lastTaskOut == out && lastDoTask == task && taskDoCalls == old(taskDoCalls) + 1 && (out.nreads == 0 || out.lastErr == nil)
+
+// ---- C09: the combining hash table (representation invariant, probing over the current table size) ----
+
+// The table occupies rows [0, cap) of data, the scratch rows follow it and are a view of the same columns; cap is a
+// power of two (mask == cap-1 with cap&mask == 0), one hit counter per table row.
+//@ spec func cfOK(c *combiningFrame) bool = c != nil && c.cap >= 1 && c.mask == c.cap - 1 && c.cap&(c.cap-1) == 0 && len(c.hits) == c.cap && c.len >= 0 && wf(c.data) && distinctCols(c.data) && c.data.off == 0 && c.data.len == c.cap + c.scratch.len && c.data.cap == c.data.len && c.data.prefix >= 0 && c.scratch.len >= 1 && c.scratch.off == c.cap && c.scratch.cap == c.scratch.len && c.scratch.prefix == c.data.prefix && c.scratch.data.arr == c.data.data.arr && c.scratch.data.off == c.data.data.off && len(c.scratch.data) == len(c.data.data) && 0 <= c.vcol && c.vcol < len(c.data.data) && forall(k, 0, len(c.data.data), c.data.off + c.data.len <= rvLen(c.data.data[k].val)) && c.typ != nil && typePrefix(c.typ) >= 1 && typeNumOut(c.typ) >= typePrefix(c.typ) && len(c.data.data) == typeNumOut(c.typ) && wf(c.scratch) && allocated(c.data.data.arr) && allocated(c.hits.arr) && forall(k, 0, len(c.data.data), colStamp(c.data.data[k].ptr) <= colClock)
+
+//@ func exec.(*combiningFrame).Len
+//@   requires c != nil
+//@   ensures result == c.len
+//@   modifies nothing
+//@ func exec.(*combiningFrame).Cap
+//@   requires c != nil
+//@   ensures result == c.cap
+//@   modifies nothing
+
+//@ func exec.(*combiningFrame).make (ndata, nscratch) (data0, scratch0, hits0)
+//@   requires c != nil && c.typ != nil && typePrefix(c.typ) >= 1 && typeNumOut(c.typ) >= typePrefix(c.typ) && ndata >= 1 && nscratch >= 1 && c.len >= 0 && 0 <= c.vcol && c.vcol < typeNumOut(c.typ)
+//@   panics_if ndata&(ndata-1) != 0
+//@   ensures  table: cfOK(c) && c.cap == ndata && c.scratch.len == nscratch && c.len == old(c.len) && c.vcol == old(c.vcol) && c.typ == old(c.typ)
+//@   ensures  empty: forall(k, 0, len(c.hits), c.hits[k] == 0) && fresh(c.hits)
+//@   ensures  previous: data0 == old(c.data) && scratch0 == old(c.scratch) && hits0 == old(c.hits)
+//@   ensures  previous-wf: implies(old(wf(c.scratch) && wf(c.data) && allocated(c.data.data.arr) && c.scratch.data.arr == c.data.data.arr), wf(scratch0) && wf(data0))
+//@   ensures  new-columns-are-new: forall(k, 0, len(c.data.data), colStamp(c.data.data[k].ptr) == colClock) && colClock == old(colClock) + 1
+//@   modifies c.data, c.scratch, c.hits, c.threshold, c.mask, c.cap, ColMem, colClock
+
+// added counts the new key and, beyond the load threshold, doubles the table and re-inserts every occupied row at a
+// probe position computed with the new mask.
+//@ func exec.(*combiningFrame).added
+//@   requires cfOK(c)
+//@   may_panic
+//@   flag nlarith
+//@   ensures  table-ok: cfOK(c) && c.scratch.len == old(c.scratch.len) && c.len == old(c.len) + 1
+//@   ensures  grown-or-same: c.cap == old(c.cap) || c.cap == 2 * old(c.cap)
+//@   ensures  hits-same-or-fresh: (c.hits.arr == old(c.hits.arr) && c.hits.off == old(c.hits.off) && len(c.hits) == old(len(c.hits))) || fresh(c.hits)
+//@   modifies c.data, c.scratch, c.hits, c.threshold, c.mask, c.cap, c.len, ColMem, colClock
+//@   loop 1 invariant cfOK(c) && c.scratch.len == old(c.scratch.len) && c.len == old(c.len) + 1 && c.cap == 2 * old(c.cap) && len(hits0) == old(c.cap) && wf(data0) && data0.len >= old(c.cap) && data0.prefix >= 0 && data0.off == 0 && fresh(c.hits) && (hits0.arr == 0 || !fresh(hits0))
+//@   loop 2 invariant cfOK(c) && c.scratch.len == old(c.scratch.len) && c.len == old(c.len) + 1 && c.cap == 2 * old(c.cap) && len(hits0) == old(c.cap) && 0 <= idx && idx <= c.mask && try >= 1 && wf(data0) && data0.len >= old(c.cap) && data0.prefix >= 0 && data0.off == 0 && fresh(c.hits) && (hits0.arr == 0 || !fresh(hits0))
+//@   loop 2 invariant rehash-starts-at-hash-mod-new-size: implies(try == 1, idx == int(rowHash(data0, i, hashSeed)) & c.mask)
+
+// Every probe for scratch row i starts at the row's key hash reduced by the *current* mask (the table may have been
+// doubled by an earlier row of the same batch) and stays inside the table; the table stays well-formed.
+//@ func exec.(*combiningFrame).combine (n)
+//@   requires cfOK(c) && 0 <= n && n <= c.scratch.len
+//@   may_panic
+//@   flag nlarith
+//@   ensures  table-ok: cfOK(c) && c.scratch.len == old(c.scratch.len)
+//@   modifies c.data, c.scratch, c.hits, c.threshold, c.mask, c.cap, c.len, c.scratchCall, c.hits[:], ColMem, colClock, userCalls, lastCallRvs
+//@   loop 1 invariant cfOK(c) && c.scratch.len == old(c.scratch.len) && 0 <= i && ((c.hits.arr == old(c.hits.arr) && c.hits.off == old(c.hits.off) && len(c.hits) == old(len(c.hits))) || fresh(c.hits))
+//@   loop 2 invariant cfOK(c) && c.scratch.len == old(c.scratch.len) && 0 <= i && i < n && 0 <= idx && idx <= c.mask && try >= 1 && ((c.hits.arr == old(c.hits.arr) && c.hits.off == old(c.hits.off) && len(c.hits) == old(len(c.hits))) || fresh(c.hits))
+//@   loop 2 invariant probe-starts-at-hash-mod-current-size: implies(try == 1, idx == int(rowHash(c.scratch, i, hashSeed)) & c.mask)
+
+// Compact moves the occupied rows to the front, empties the table and returns the view of the compacted rows.
+//@ func exec.(*combiningFrame).Compact () (out)
+//@   requires cfOK(c)
+//@   flag nlarith
+//@   ensures  table-ok: cfOK(c) && c.len == 0 && c.cap == old(c.cap)
+//@   ensures  emptied: forall(k, 0, len(c.hits), c.hits[k] == 0)
+//@   ensures  view: out.data == c.data.data && out.off == 0 && 0 <= out.len && out.len <= c.cap && out.prefix == c.data.prefix
+//@   modifies c.len, c.hits[:], ColMem
+//@   loop 1 invariant cfOK(c) && c.cap == old(c.cap) && 0 <= j && j <= range_idx && forall(k, 0, range_idx, c.hits[k] == 0)
+
+// (*combiningFrame).Combine (the chunking loop around combine) is not under contract: its chunk bounds need nonlinear
+// integer reasoning (ceil(len/scratch) * scratch) that the solvers do not do; it is exercised by the bounded run.
+
+//@ func exec.makeCombiningFrame (typ, combiner, n, nscratch) (c)
+//@   requires typ != nil && typePrefix(typ) >= 1 && n >= 1 && nscratch >= 1
+//@   panics_if typeNumOut(typ) - typePrefix(typ) != 1 || n&(n-1) != 0
+//@   ensures  table: cfOK(c) && c.cap == n && c.scratch.len == nscratch && c.len == 0 && c.vcol == typeNumOut(typ) - 1 && fresh(c)
+//@   modifies ColMem, colClock
